@@ -250,7 +250,7 @@ def storage(seed, nops=200, comps=(0, 1, 2, 3, 4, 5)):
     return ops
 
 
-def graphs(seed, nhandlers=8, nsends=6, panic_p=0.0, take_p=0.2):
+def graphs(seed, nhandlers=8, nsends=6, panic_p=0.0, take_p=0.2, stray_p=0.0):
     """C04/C07/C09/C11/C13: dense random handler graphs over the user and structural events, then initial events.
     Handlers mostly send events that other handlers listen for, so propagation nests (budget 24 sends per top-level op)."""
     r = random.Random(seed)
@@ -294,6 +294,10 @@ def graphs(seed, nhandlers=8, nsends=6, panic_p=0.0, take_p=0.2):
             x = r.random()
             if sends and x < 0.7:
                 ev = r.choice(sends)
+                if stray_p and r.random() < stray_p:
+                    # an event outside the handler's event set: the documented `Sender` panic, raised inside send / send_to /
+                    # insert / spawn while the event value already exists
+                    ev = r.choice(pool)
                 tg = rand_tgt(r, ctx, targeted)
                 if ev in USER_G:
                     body.append(f"send:{ev}")
